@@ -381,6 +381,7 @@ def parts(tier):
         InputPart("labels-unicode-forms", lambda: ((t, m, sk, "repr", False) for t, m, sk, _ in _c01.layer_unicode_forms()), check,
                   rule="the %d non-NFC / case-folding-sensitive / canonically equivalent strings of C01 as labels and tier names in files written by the "
                        "independent writer: read back code point for code point" % len(_c01.UNICODE_FORMS), bounds={}, chunk=2),
+        _c01.residue_part(quick),
         InputPart("json-respellings", lambda: itertools.chain(gen_structure(), itertools.islice(gen_labels(2), 0, None, 7)), check_json_freedoms,
                   rule="all small structures and every 7th label case x both JSON schemas x %d re-spellings that RFC 8259 declares insignificant (members of "
                        "the top-level and tier objects reversed / sorted / rotated, indentation, backslash-u escapes, compact separators): the reader returns the "
